@@ -30,6 +30,8 @@ type Item struct {
 //	chain:    append{Kind,NodeKey,NeedState} parallel{Items} branch{Items} compile{…}
 //	workflow: addnode{Key,Kind,NeedState} addinput{To,From,In,Fields} addbranch{From,Ends} addend{From,Fields}
 //	          setstatic{To,Fields[0]} compile{…}
+//	nested:   the graph calls on the outer Graph, sub{Key,ID,Kind} = outer.AddGraphNode(Key, inner[ID]) (inner[ID] is
+//	          created on first use: subok / subbad), inner{ID,Sub} = the graph call Sub on inner[ID]
 type Call struct {
 	Op         string   `json:"op"`
 	Key        string   `json:"key,omitempty"`
@@ -45,6 +47,8 @@ type Call struct {
 	Fields     []string `json:"fields,omitempty"`
 	Trigger    string   `json:"trig,omitempty"` // "" | any | all
 	MaxSteps   int      `json:"max,omitempty"`
+	ID         string   `json:"id,omitempty"`  // nested: name of the inner graph value (sub, inner)
+	Sub        *Call    `json:"sub,omitempty"` // nested: the call made on the inner graph (inner)
 }
 
 type Case struct {
@@ -523,8 +527,86 @@ func (f *wfFE) apply(c *Call) (error, *invoker) {
 	panic("harness: bad workflow op " + c.Op)
 }
 
+// ---- nested: an outer Graph whose sub-graph nodes are Graph values the case goes on calling
+type nestedFE struct {
+	feBase
+	g      *compose.Graph[M, M]
+	inners map[string]*compose.Graph[M, M]
+	ids    []string
+}
+
+func newNestedFE(state bool) *nestedFE {
+	f := &nestedFE{inners: map[string]*compose.Graph[M, M]{}}
+	if state {
+		f.g = compose.NewGraph[M, M](newStateOpt())
+	} else {
+		f.g = compose.NewGraph[M, M]()
+	}
+	return f
+}
+
+// graphCall: one graph-level call on a Graph value (the outer one or an inner one)
+func graphCall(b *feBase, what string, g *compose.Graph[M, M], c *Call) (error, *invoker) {
+	switch c.Op {
+	case "addnode":
+		opts := pooled(b, what+"opts", func() []compose.GraphAddNodeOpt { return nodeOpts[M](c.NeedState, "k", c.NodeKeyOpt) })
+		if c.Kind == "pass" {
+			return g.AddPassthroughNode(c.Key, opts...), nil
+		}
+		return g.AddLambdaNode(c.Key, pooled(b, what+"lam", func() *compose.Lambda { return mkLam(c.Key, fM) }), opts...), nil
+	case "addedge":
+		return g.AddEdge(c.From, c.To), nil
+	case "addbranch":
+		return g.AddBranch(c.From, pooled(b, what+"branch", func() *compose.GraphBranch { return mkBranch(c.Ends, sizeM) })), nil
+	case "compile":
+		r, err := g.Compile(context.Background(), pooled(b, what+"copts", func() []compose.GraphCompileOption { return compileOpts(c) })...)
+		if err != nil {
+			return err, nil
+		}
+		return nil, invM(r)
+	}
+	panic("harness: bad graph op " + c.Op)
+}
+
+func (f *nestedFE) apply(c *Call) (error, *invoker) {
+	switch c.Op {
+	case "sub":
+		in, ok := f.inners[c.ID]
+		if !ok {
+			// an inner graph is a builder the case goes on calling: every execution gets its own (never from the pool)
+			in = mkSub(c.Kind != "subbad", fM).(*compose.Graph[M, M])
+			f.inners[c.ID] = in
+			f.ids = append(f.ids, c.ID)
+			sort.Strings(f.ids)
+		}
+		return f.g.AddGraphNode(c.Key, in), nil
+	case "inner":
+		in, ok := f.inners[c.ID]
+		if !ok || c.Sub == nil {
+			return nil, nil // no such value: the call cannot be written in Go (model: no-op)
+		}
+		return graphCall(&f.feBase, "i/", in, c.Sub)
+	}
+	return graphCall(&f.feBase, "", f.g, c)
+}
+
+func (f *nestedFE) snapshot() []string {
+	out := snapGraph(f.g.VerifC20Snapshot())
+	for _, id := range f.ids {
+		for _, l := range snapGraph(f.inners[id].VerifC20Snapshot()) {
+			out = append(out, "I"+id+"/"+l)
+		}
+	}
+	sort.Strings(out)
+	return out
+}
+func (f *nestedFE) pendingInputs() map[string]int  { return nil }
+func (f *nestedFE) pendingStatics() map[string]int { return nil }
+
 func newFE(c *Case) frontEnd {
 	switch c.FE {
+	case "nested":
+		return newNestedFE(c.State)
 	case "graph":
 		return newGraphFE(c.State)
 	case "chain":
@@ -665,6 +747,9 @@ func execute(c *Case, snapshot bool, values *pool) execResult {
 		res.obs = append(res.obs, o)
 		if inv != nil && snapshot {
 			cr := &compiled{at: i, opts: optKey(call), inv: inv}
+			if call.Op == "inner" && call.Sub != nil {
+				cr.opts = "inner:" + call.ID + "/" + optKey(call.Sub) // a runnable of its own builder
+			}
 			for k := 0; k < nInputs; k++ {
 				a, b := inv.run(k), inv.run(k)
 				if a != b {
